@@ -429,7 +429,9 @@ Definition convert_bmad (name ty : string) (ps : props) : option ctree :=
 Definition convert (fl : flavour) (name : string) (ps : props) : option ctree :=
   match get ps "element_type" with
   | Some (PStr ty) => match fl with Elegant => convert_elegant name ty ps | Bmad => convert_bmad name ty ps end
-  | _ => None                                                  (* "Unknown ... element type" ValueError *)
+  | Some (PNum _) => l <- opt ps "l" zero ;; Some (drift name l)  (* a numeric "element_type" equals no type name: the Drift fallback
+                                                                  (found by the converter translator tie, Gen/ConvGenEquiv.v) *)
+  | None => None                                               (* KeyError *)
   end.
 
 (* ------------------------------------------------------------------ line expansion (convert_element on a list) *)
@@ -585,7 +587,8 @@ Definition convert_bmad_fixed : string -> string -> props -> option ctree := con
 Definition convert_v (fx : fixes) (fl : flavour) (name : string) (ps : props) : option ctree :=
   match get ps "element_type" with
   | Some (PStr ty) => match fl with Elegant => convert_elegant name ty ps | Bmad => convert_bmad_v fx name ty ps end
-  | _ => None
+  | Some (PNum _) => l <- opt ps "l" zero ;; Some (drift name l)
+  | None => None
   end.
 
 Fixpoint expand_v (fx : fixes) (fuel : nat) (fl : flavour) (c : ctx) (name : string) : option ctree :=
